@@ -150,6 +150,10 @@ def c08 : Handler :=
     rdPayObsList
     (fun (cfg, cs) => c08Obs cfg cs)
     (fun (_, cs) os => C08.histOk false cs os)
+    (fun _ => true)
+    -- with AddDONL the bytes of a fragmented unit are those of the known finding c14_donl_fu: if the
+    -- finding is repaired, fragments differ from the model there (and must still satisfy C08)
+    (fun (cfg, cs) _ => if cfg.addDONL && (payloadHist cfg 0 cs).any (·.any isFU) then some "c14_donl_fu" else none)
 
 /-! ### c09.h265 -/
 
